@@ -31,3 +31,20 @@ __CPROVER_ensures(IMPLIES(__CPROVER_return_value != KSI_OK && builder != NULL, *
 __CPROVER_ensures(g_b.tlv_live == (__CPROVER_return_value == KSI_OK ? 1 : 0))
 __CPROVER_assigns(*builder, g_b, g_bl, g_b_tl_len, g_b_el);
 #pragma CPROVER check pop
+
+/* KSI_SignatureBuilder_openFromSignature (signature_builder.c:796), C08: extending works on a CLONE of the source.
+ *   OK => the builder's signature is the object made by KSI_Signature_clone(source) - a different object - and the
+ *         source is not written (it is not in the frame);   not OK => *builder untouched, nothing left behind. */
+#pragma CPROVER check push
+#pragma CPROVER check disable "pointer"
+#pragma CPROVER check disable "pointer-primitive"
+int KSI_SignatureBuilder_openFromSignature(const KSI_Signature *sig, KSI_SignatureBuilder **builder)
+__CPROVER_requires(g_b.clone_calls == 0 && g_b.sig_free_calls == 0 && g_b.tlv_live == 0)
+__CPROVER_ensures(IMPLIES(__CPROVER_return_value == KSI_OK,
+		sig != NULL && builder != NULL && g_b.clone_calls == 1 && g_b.clone_res == KSI_OK && g_b.clone_from == (const void *)sig &&
+		*builder != NULL && (*builder)->sig != NULL && (*builder)->sig != sig && (*builder)->noVerify == 0 && (*builder)->ctx == sig->ctx))
+__CPROVER_ensures(IMPLIES(sig == NULL || builder == NULL, __CPROVER_return_value == KSI_INVALID_ARGUMENT && g_b.clone_calls == 0))
+__CPROVER_ensures(IMPLIES(__CPROVER_return_value != KSI_OK && builder != NULL, *builder == __CPROVER_old(*builder)))
+__CPROVER_ensures(IMPLIES(g_b.clone_calls == 1 && g_b.clone_res != KSI_OK, __CPROVER_return_value == g_b.clone_res))
+__CPROVER_assigns(*builder, g_b);
+#pragma CPROVER check pop
